@@ -107,6 +107,24 @@ CLAIMED["C09"] = dict(
          "Discards: pump / compressor at zero or reverse flow, verdict mismatches under Colebrook / Swamee-Jain. Known finding: start-temperature "
          "asymmetry next to an ext grid whose t_k differs from tfluid_k.",
     ref="DESIGN.md 4/C09")
+CLAIMED["C10"] = dict(
+    technique="property-based testing (Hypothesis) against the documented cooling law and junction energy balance re-evaluated with an independent heat-capacity table",
+    text="Exploration: generated district-heating loops (meshes, >= 3 inflows, reverse flow against the declared direction, 1-4 sections, u, "
+         "ambient and outer-diameter variants, all consumer modes) in modes sequential, bidirectional and heat with both engines; per flowing "
+         "pipe section (walked in flow direction) the exponential cooling law, per junction the energy-conserving mix of the delivered stream "
+         "temperatures, feeder temperatures and the min/max bounds are asserted with tolerances of 1e-6 K / 1e-6 relative "
+         "(measured on the tree: 2e-11 K, 2e-12).",
+    note="Trusted: cp table parsed from the library file; section temperatures from Pipe.get_internal_results; mass injected by sources / p-only "
+         "grids enters at junction temperature. Non-converged generated loops are discards.",
+    ref="DESIGN.md 4/C10")
+CLAIMED["C11"] = dict(
+    technique="property-based testing (Hypothesis): duty identities, consumer set-points and loop closure re-evaluated from the result tables",
+    text="Exploration: generated loops with 1-6 consumers in all five specification modes, exchangers with/without flow control, Q of either "
+         "sign, sequential and bidirectional mode: q = mdot*cp_mean*(T_in - T_out) for every exchanger / consumer, the two prescribed consumer "
+         "quantities equal their set-points when mdot is prescribed or the mode is bidirectional, and the circulation pump's reported heat "
+         "closes the loop within the heat-capacity discretisation bound.",
+    note="Trusted: cp table parsed from the library file. Known finding: sequential mode with (Q, T_ret) consumers.",
+    ref="DESIGN.md 4/C11")
 NOT_YET = {}
 
 def main():
